@@ -19,8 +19,10 @@ def cases(rng, tier):
     n_ = {"quick": 400, "thorough": 5000}.get(tier, 300)
     for _ in range(n_):
         n = rng.randint(2, 40 if rng.random() < 0.3 else 8)
-        x = rng.increasing(n)
-        integer = rng.random() < 0.25
+        x = rng.increasing(n, jitter=rng.random() < 0.2)
+        if rng.random() < 0.1:
+            x = [v / 2 ** 30 for v in x]          # small-scale abscissae (steps far below 1e-8)
+        integer = rng.random() < 0.25 and all(v.denominator <= 4 for v in x)
         if integer:
             x = sorted({Fraction(int(v * 4)) for v in x})
             n = len(x)
